@@ -50,7 +50,8 @@ class Check(PropertyCheck):
                 "LLBuild.ProcStatus.C16_spawn_shape", "LLBuild.ProcStatus.C16_status",
                 "LLBuild.ProcStatus.C16_completion_once", "LLBuild.ProcStatus.C16_completion_status",
                 "LLBuild.ProcStatus.C16_completion_once_before_fix_false", "LLBuild.ProcStatus.C16_env_precedence",
-                "LLBuild.ProcStatus.C16_no_spawn_after_cancel"]
+                "LLBuild.ProcStatus.C16_no_spawn_after_cancel", "LLBuild.ProcStatus.C16_escalation",
+                "LLBuild.ProcStatus.C16_escalation_full_after_fix", "LLBuild.ProcStatus.C16_escalation_full_before_fix_false"]
     extractors = ["x_lanequeue", "x_procstatus"]
     harnesses = [("vc16", "plain")]
     assumptions = [
@@ -58,6 +59,7 @@ class Check(PropertyCheck):
         "the queue has at least one lane (createLaneBasedExecutionQueue(.., 0, ..) creates none and never runs anything; in-tree callers never pass 0); no job has a null descriptor (QueueJob{} is the lane-exit sentinel by design); addJob is not called from outside the queue's own jobs once the destructor has started",
         "job bodies terminate (liveness of the destructor's join is not a theorem; the invariants show no lane sleeps on pending work and none waits after shutdown)",
         "kernel/libc: wait4 reports the child's fate in the glibc wait-status layout (checked against the W* macros by the extractor), pipes deliver bytes in order until EOF, kill(-pgid) reaches the child, posix_spawn returns after the child's exec: exercised by the harness with real children, not proved",
+        "escalation (C16_escalation): until fix F53 is in the tree, the kill round is guaranteed only if the escalation thread took queueCompleteMutex before the destructor stored queueComplete (the theorem's hypothesis `waited`; its negation without the hypothesis is proved and replays on the real queue: vc16 cancelphase with destroy field r0, ~2 % of the runs). The harness therefore waits until that thread is parked before it destroys the queue; the raw order is run too and only counted (distribution.cancelphase_destroy_race_F53) until the extractor sees the fixed shape, then it is required",
         "hand model of the spawnProcess control flow, tied by a token-sequence fingerprint of the preprocessed source (fails closed) and by real launches on every path the harness can reach (pipe-creation and wait4 failures are not injected)",
     ]
     trusted_base = ["extractors x_lanequeue (conditions, pop order, notify kinds, env order, sentinel handling) and x_procstatus (classification expression, signal numbers, W* macro probe, control-flow fingerprint)",
@@ -302,6 +304,11 @@ class Check(PropertyCheck):
             chunk = rng.choice([1, 7, 512, 4096, 65536, 1 << 20]) if v < 70000 else rng.choice([4096, 65536, 1 << 20])
             code = rng.choice([0, 0, 1, 42])
             add("out %d %d %d %d" % (v, seed, chunk, code), kind="out", n=v, seed=seed, code=code)
+        # a burst written at once by a child that exits immediately, consumed by a slow delegate: whatever is still in the pipe
+        # when the writer is gone (up to the pipe buffer, 64 KiB) must be delivered before the completion
+        for v in [4097, 8193, 20000, 65536, 65537, 200000] + ([4097 + rng.below(300000) for _ in range(10)] if ctx.thorough else []):
+            seed = rng.below(1 << 32)
+            add("slowout %d %d %d %d %d" % (v, seed, 1 << 20, 0, 300), kind="out", n=v, seed=seed, code=0)
         for v in [0, 5000, 100000] + ([rng.below(300000) for _ in range(10)] if ctx.thorough else []):
             seed = rng.below(1 << 32)
             add("early %d %d %d %d" % (v, seed, 30, 4), kind="out", n=v, seed=seed, code=4, early=True)
@@ -476,17 +483,310 @@ class Check(PropertyCheck):
             res.evaluations += 1
 
     # ------------------------------------------------------------------------------------------
+    # cancellation at every phase of every kind of child, then destruction of the queue
+    # ------------------------------------------------------------------------------------------
+    LONG = 5000          # ms: a child that can only end by a signal within the time the oracle allows
+    ESC_DEADLINE = 1000  # ms: SIGKILL escalation under LLBUILD_TEST (the harness sets it)
+    SLACK = 2000         # ms: scheduling slack granted on top of the deadline
+
+    def gen_phase(self, rng, forced=None, raw=False):
+        """one history: lanes, children (canSafelyInterrupt, ignored signals, lane release over the control channel, life time,
+        exit code, output), the phase of one chosen child at which cancelAllJobs() is called, and the delay until the queue is
+        destroyed.  `forced` = (trigger kind, released, unkillable by SIGINT) makes every class occur in every run."""
+        LONG = self.LONG
+        lanes = 1 + rng.below(3)
+        k = 1 + rng.below(4)
+        procs = []
+        for i in range(k):
+            safe = 0 if rng.chance(1, 3) else 1
+            ign = rng.choice([0, 0, 1, 1, 2, 3])
+            rel = rng.choice([-1, -1, 0, 0, 30, -2, -3])
+            ctl = 0 if rng.chance(1, 8) else 1
+            life = rng.choice([LONG, LONG, 0, 20, 100])
+            code = rng.choice([0, 0, 3])
+            out = rng.choice([0, 10, 5000, 70000])
+            procs.append(dict(safe=safe, ign=ign, rel=rel, life=life, code=code, out=out, ctl=ctl, first=0, slowfin=30 if rng.chance(1, 6) else 0))
+        kinds = ["start", "rel", "zombie", "done", "pre", "added", "never"]
+        kind = forced[0] if forced else rng.choice(kinds + ["start", "rel", "rel"])
+        # a launch can reach a phase only if it gets a lane: earlier children that hold a lane for LONG block it
+        def startable(i):
+            return sum(1 for q in procs[:i] if q["life"] == LONG and not (q["rel"] >= 0 and q["ctl"])) < lanes
+        tgt = rng.below(min(k, lanes))
+        t = procs[tgt]
+        if kind == "start":
+            t["life"] = LONG
+            if forced:
+                t["rel"] = -1
+        elif kind == "rel":
+            t["rel"], t["ctl"], t["life"] = rng.choice([0, 0, 30]), 1, LONG
+        elif kind == "zombie":
+            t["first"], t["out"], t["life"] = 1, rng.choice([10, 5000]), rng.choice([0, 20])
+            t["rel"] = rng.choice([-1, 0])
+            t["ctl"] = 1
+        elif kind == "done":
+            t["life"], t["rel"] = rng.choice([0, 20]), rng.choice([-1, -1, 0])
+        if forced and kind in ("start", "rel"):
+            t["safe"], t["ign"] = (0, rng.choice([0, 2])) if forced[2] == "unsafe" else (1, rng.choice([1, 3])) if forced[2] == "ignore" else (1, rng.choice([0, 2]))
+        if kind == "never":
+            for q in procs:
+                if q["life"] == LONG:
+                    q["life"] = rng.choice([50, 200])
+        if not startable(tgt):      # cannot happen (tgt < lanes), kept as a guard for the generator
+            kind = "added"
+        trig = kind if kind in ("pre", "added", "never") else "%s:%d" % (kind, tgt)
+        cdel = 0 if rng.chance(2, 3) else rng.choice([1, 5, 40])
+        # "<d>": the queue is destroyed d ms after cancelAllJobs() returned and the escalation thread is parked in its wait;
+        # "r<d>": d ms after it returned, wherever that thread is (F53: it may not have taken its mutex yet)
+        ddel = "r%d" % rng.choice([0, 0, 0, 1]) if raw else str(rng.choice([0, 0, 0, 1, 5, 50, 300]))
+        spec = ",".join("%(safe)d:%(ign)d:%(rel)d:%(life)d:%(code)d:%(out)d:%(ctl)d:%(first)d:%(slowfin)d" % q for q in procs)
+        return "%d %s %d %s %s" % (lanes, trig, cdel, ddel, spec), procs
+
+    def check_phase(self, res, line, procs, out, stats):
+        """the property, restated for one history (nothing here is derived from what the code does):
+        every job runs once within the lane limit; every launch completes exactly once, after its output, with the status of the
+        child's real fate; nothing is spawned after cancelAllJobs() returned; a child that was running when the build was cancelled
+        is signalled (SIGINT if it may be interrupted, SIGKILL at the latest at the escalation deadline or when the queue is
+        destroyed), reported Cancelled and reaped before the queue's destructor returns."""
+        f = fields(out)
+        base = {"call": "cancelAllJobs / ~LaneBasedExecutionQueue at a chosen phase", "input": "vc16 cancelphase <<< '%s'" % line, "line": out[:600]}
+        fails, obs = [], []
+        fail = lambda what, kind, **kw: fails.append(dict(base, what=what, kind=kind, **kw))
+        lanes, trig = int(line.split()[0]), line.split()[1]
+        tk = trig.split(":")[0]
+        if out.startswith("bad-op") or "trig_hit" not in f:
+            res.mismatches.append({"stream": "cancelphase", "input": line, "impl": out[:200]})
+            return fails, None
+        if f["trig_hit"] != "1":
+            stats["phase_missed"] += 1
+        if f["timeout"] != "0":
+            fail("a launch never completed (no completion within 8 s after the queue was destroyed)", "completion-count", phase=tk)
+        if int(f["peak"]) > lanes:
+            fail("%s jobs in flight on %d lanes" % (f["peak"], lanes), "lane-bound", phase=tk)
+        if f["jobs_started"] != str(len(procs)) or f["jobs_finished"] != str(len(procs)):
+            fail("queueJobStarted/Finished %s/%s for %d jobs" % (f["jobs_started"], f["jobs_finished"], len(procs)), "delegate-pairing", phase=tk)
+        cancelled = f["cancel_at"] != "-1"
+        c = int(f["cancel_at"])
+        for i, q in enumerate(procs):
+            v = f.get("p%d" % i, "").split(":")
+            if len(v) != 18:
+                res.mismatches.append({"stream": "cancelphase", "input": line, "impl": out[:200]})
+                return fails, None
+            ncomp, st, raw, started, finished, finst, pidv, late, cbf, gone, runs, released = v[0], v[1], int(v[2]), v[3], v[4], v[5], v[6] == "1", v[7], v[8], v[9], v[10], v[11] == "1"
+            t_start, t_done, after_cancel, after_destroy, outlen, md5 = int(v[12]), int(v[13]), v[14], v[15], int(v[16]), v[17]
+            who = dict(child=i, phase=tk, safe=q["safe"], ignores=q["ign"], released=int(released))
+            desc = "child %d (canSafelyInterrupt=%d, ignores mask %d, %s)" % (i, q["safe"], q["ign"], "lane released" if released else "lane held")
+            if runs != "1":
+                fail("job %d ran %s times" % (i, runs), "job-count", **who)
+            if ncomp != "1":
+                fail("the completion callback of %s fired %s times" % (desc, ncomp), "completion-count", **who)
+                continue
+            if started != finished or late != "0" or cbf != "0":
+                fail("%s: processStarted/Finished unpaired (%s/%s), output after completion (%s) or completion before processFinished (%s)" % (desc, started, finished, late, cbf), "event-order", **who)
+            if finished == "1" and finst != st:
+                fail("%s: processFinished reported %s but the completion %s" % (desc, finst, st), "status-disagree", **who)
+            if after_cancel != "0":
+                fail("%s was started after cancelAllJobs() returned" % desc, "spawn-after-cancel", **who)
+            if after_destroy == "1":
+                stats["completed_after_destructor"] += 1
+                fail("the completion callback of %s fired %d ms after the queue's destructor had returned (the detached waiter of a released lane outlives the queue and still uses it)"
+                     % (desc, t_done - int(f["destroy_at"]) - int(f["destroy_ms"])), "completion-after-destructor", **who)
+            obs.append(dict(i=i, spawned=pidv and ncomp == "1", raw=raw, released=released, t_start=t_start, t_done=t_done, running_long=False))
+            if not pidv:
+                stats["refused"] += 1
+                if not cancelled or st != "Cancelled" or t_done < c:
+                    fail("%s was not spawned and completed %s although the build was %s" % (desc, st, "cancelled later" if cancelled else "never cancelled"), "refused-without-cancel", **who)
+                continue
+            if gone != "1":
+                fail("%s was still alive / not reaped when the queue's destructor returned" % desc, "outlives-queue", **who)
+            sig, exited = raw & 0x7f, (raw & 0x7f) == 0
+            want = ("Succeeded" if raw == 0 else "Failed") if exited else ("Cancelled" if sig in CANCEL_SIGNALS else "Failed")
+            if st != want:
+                fail("%s: wait status %d requires %s, reported %s" % (desc, raw, want, st), "status", expected=want, got=st, **who)
+            allowed = [q["code"] << 8] + ([9] if cancelled else []) + ([2] if cancelled and q["safe"] else [])
+            if raw not in allowed:
+                fail("%s ended with wait status %d; it exits %d by itself%s" % (desc, raw, q["code"], " or is interrupted / killed by the cancellation" if cancelled else ""), "exit-code", **who)
+            stats["fate"]["exit" if exited else "sig%d" % sig] = stats["fate"].get("exit" if exited else "sig%d" % sig, 0) + 1
+            own_end = t_start + max(q["rel"], 0) + q["life"]       # when the child would end by itself
+            if cancelled and own_end > c + self.ESC_DEADLINE + self.SLACK + 500:
+                # the child was running when the build was cancelled and would have kept running beyond the escalation deadline
+                stats["running_at_cancel"] += 1
+                obs[-1]["running_long"] = True
+                stats["released_at_cancel"] += 1 if (released and q["rel"] >= 0) else 0
+                needs_kill = (not q["safe"]) or ((q["ign"] & 1) and released)
+                stats["needs_sigkill"] += 1 if needs_kill else 0
+                if st != "Cancelled" or exited:
+                    fail("%s was running when cancelAllJobs() was called (phase %s) and would have run %d ms more; it was not signalled: wait status %d, reported %s after %d ms"
+                         % (desc, trig, own_end - c, raw, st, t_done - c), "cancelled-child-status", got=st, **who)
+                elif needs_kill and sig != 9:
+                    fail("%s cannot be ended by SIGINT but its wait status is %d" % (desc, raw), "escalation", **who)
+                if t_done - c > self.ESC_DEADLINE + self.SLACK:
+                    fail("%s completed %d ms after cancelAllJobs(): no SIGKILL at the escalation deadline (%d ms) / at destruction" % (desc, t_done - c, self.ESC_DEADLINE), "escalation-late", **who)
+            if exited:
+                data = pattern(q["out"], 1000003 * (i + 1))
+                if outlen != q["out"] or md5 != hashlib.md5(data).hexdigest():
+                    fail("%s exited by itself but its output was not delivered completely and in order before the completion: %d of %d bytes" % (desc, outlen, q["out"]), "output", **who)
+            elif outlen > q["out"]:
+                fail("%s: more output delivered (%d) than written (%d)" % (desc, outlen, q["out"]), "output", **who)
+        if cancelled and int(f["destroy_at"]) + int(f["destroy_ms"]) - c > self.ESC_DEADLINE + self.SLACK + max([0] + [q["life"] + max(q["rel"], 0) for q in procs if q["life"] != self.LONG]):
+            fail("the queue's destructor returned %d ms after cancelAllJobs()" % (int(f["destroy_at"]) + int(f["destroy_ms"]) - c), "destructor-late", phase=tk)
+        ok = f["trig_hit"] == "1" and f["timeout"] == "0" and cancelled
+        return fails, (dict(c=c, children=obs) if ok else None)
+
+    def esc_acts(self, procs, o):
+        """the history as a schedule of the model `Esc` (released lanes, escalation thread, destructor), for histories in which the
+        escalation thread was parked before the queue was destroyed.  Who is still registered at the kill round follows from the
+        SPEC for children that can only end by a signal (running at the cancellation for longer than the deadline: reaped before
+        the round iff SIGINT reaches and ends them), from the observed fate for short-lived ones."""
+        ch = [x for x in o["children"] if x["spawned"]]
+        pid = {x["i"]: n + 1 for n, x in enumerate(ch)}
+        acts = ["spawn"] * len(ch)
+        acts += ["rel:%d" % pid[x["i"]] for x in ch if x["released"]]
+        acts += ["reap:%d" % pid[x["i"]] for x in ch if x["t_done"] < o["c"]]
+        acts += ["cancel", "enter"]
+        early, remaining = [], []
+        for x in ch:
+            if x["t_done"] < o["c"]:
+                continue
+            q = procs[x["i"]]
+            if x["running_long"] and not ((q["ign"] & 1) and q["safe"] and not x["released"]):
+                dies_of_sigint = bool(q["safe"]) and not (q["ign"] & 1)
+            else:
+                dies_of_sigint = x["raw"] != 9          # short-lived / may have been hit before it ignored the signal: as observed
+            (early if dies_of_sigint else remaining).append(x)
+        acts += ["reap:%d" % pid[x["i"]] for x in early]
+        if any(not x["released"] for x in remaining):
+            acts += ["wake"] + ["reap:%d" % pid[x["i"]] for x in remaining] + ["joinlanes", "complete", "joinesc"]
+        else:
+            acts += ["joinlanes", "complete", "wake"] + ["reap:%d" % pid[x["i"]] for x in remaining] + ["joinesc"]
+        killed_impl = sorted(pid[x["i"]] for x in ch if x["raw"] == 9)
+        return ",".join(acts), "ok=1 joined=1 waited=1 registered=. killed=%s" % (",".join(str(k) for k in killed_impl) or ".")
+
+    def run_parallel(self, ctx, hmode, lines, workers=8, timeout=600):
+        """the same harness binary, `workers` processes, line i goes to process i % workers (queues of different histories never
+        share a process at the same time: descriptors and process groups stay separate)"""
+        outs = [None] * workers
+        def w(j):
+            try:
+                outs[j] = C.run_lines([ctx.exe[("vc16", "plain")], hmode], lines[j::workers], timeout=timeout)
+            except subprocess.TimeoutExpired:
+                outs[j] = (-9, [], "timeout")
+        ths = [threading.Thread(target=w, args=(j,)) for j in range(workers)]
+        for t in ths:
+            t.start()
+        for t in ths:
+            t.join()
+        res = [None] * len(lines)
+        for j in range(workers):
+            rc, o, err = outs[j]
+            mine = lines[j::workers]
+            for n in range(len(mine)):
+                res[j + n * workers] = o[n] if n < len(o) else ("HANG" if rc == -9 else "bad-op harness exit %d %s" % (rc, err[-100:]))
+        return res
+
+    def tree_flag(self, name):
+        """a boolean the extractor wrote for the tree under test (escalatesWhenComplete = F53, destructorWaitsForBackgroundTasks =
+        F54); only used to decide whether a confirmed, not yet repaired defect is counted or required to be absent"""
+        try:
+            with open(os.path.join(C.LEAN, "LLBuild", "Generated", "LaneQueue.lean")) as f:
+                return re.search(r"def %s : Bool := true" % name, f.read()) is not None
+        except OSError:
+            return False
+
+    def listed(self, kind):
+        return any(k.get("match", {}).get("kind") == kind for k in C.load_known("C16"))
+
+    def run_phases(self, ctx, res):
+        rng = C.Rng(ctx.seed, "C16/phases")
+        cases = []
+        # every phase x (lane held / released) x (interruptible / canSafelyInterrupt=false / ignores SIGINT) occurs in every run
+        for kind in ("start", "rel"):
+            for how in ("plain", "unsafe", "ignore"):
+                for _ in range(3 if ctx.thorough else 2):
+                    cases.append(self.gen_phase(rng, (kind, None, how)) + (False,))
+        for kind in ("zombie", "done", "pre", "added", "never"):
+            for _ in range(4 if ctx.thorough else 2):
+                cases.append(self.gen_phase(rng, (kind, None, None)) + (False,))
+        for _ in range(500 if ctx.thorough else 74):
+            cases.append(self.gen_phase(rng) + (False,))
+        # the queue destroyed right after cancelAllJobs() returned, without waiting for the escalation thread to park
+        for n in range(40 if ctx.thorough else 6):
+            cases.append(self.gen_phase(rng, ("rel", None, "unsafe" if n % 2 else "ignore"), raw=True) + (True,))
+        strict_raw = self.tree_flag("escalatesWhenComplete") or self.listed("escalation-skipped-destroy-race")
+        strict_life = self.tree_flag("destructorWaitsForBackgroundTasks") or self.listed("completion-after-destructor")
+        lines = [c[0] for c in cases]
+        outs = self.run_parallel(ctx, "cancelphase", lines, workers=12, timeout=900)
+        stats = {"phase_missed": 0, "completed_after_destructor": 0, "refused": 0, "running_at_cancel": 0, "released_at_cancel": 0,
+                 "needs_sigkill": 0, "fate": {}}
+        race = {"histories": 0, "escalation_skipped": 0, "required": strict_raw}
+        esc_lines, esc_want, esc_src = [], [], []
+        for (line, procs, raw), o in zip(cases, outs):
+            if o == "HANG":
+                res.oracle_failures.append({"what": "the real code hung on a cancelphase history (no result within the time limit)", "call": "cancelphase", "kind": "hang",
+                                            "input": "vc16 cancelphase <<< '%s'" % line})
+                continue
+            fails, ob = self.check_phase(res, line, procs, o, stats)
+            if raw:
+                # F53: without the fix the thread may find queueComplete set and return without its kill round
+                race["histories"] += 1
+                sig = [x for x in fails if x["kind"] in ("cancelled-child-status", "escalation-late", "destructor-late")]
+                race["escalation_skipped"] += 1 if sig else 0
+                for x in sig:
+                    x["kind"], x["race"] = "escalation-skipped-destroy-race", "queue destroyed before the escalation thread took queueCompleteMutex"
+                if not strict_raw:
+                    fails = [x for x in fails if x not in sig]
+            if not strict_life:          # F54, confirmed (ASan: use after free of backgroundTaskCount), counted until the repair is in the tree
+                fails = [x for x in fails if x["kind"] != "completion-after-destructor"]
+            res.oracle_failures.extend(fails)
+            if ob is not None and not raw:
+                a, w = self.esc_acts(procs, ob)
+                esc_lines.append(a)
+                esc_want.append(w)
+                esc_src.append(line)
+        # correspondence: the model of released lanes / escalation thread / destructor predicts who gets the kill round
+        if esc_lines:
+            cmd, cwd = self.model_cmd("c16esc")
+            p = subprocess.run(cmd, input=("\n".join(esc_lines) + "\n").encode(), stdout=subprocess.PIPE, stderr=subprocess.PIPE, cwd=cwd)
+            mo = p.stdout.decode().split("\n")[:-1]
+            if p.returncode == 0 and len(mo) == len(esc_lines):
+                for a, w, m, src in zip(esc_lines, esc_want, mo, esc_src):
+                    if m != w and len(res.mismatches) < 20:
+                        res.mismatches.append({"stream": "esc", "input": "vc16 cancelphase <<< '%s'  (model schedule: %s)" % (src, a), "model": m, "impl": w})
+            elif ctx.model_ok:
+                res.mismatches.append({"stream": "esc", "input": "model driver exit %d" % p.returncode, "model": p.stderr.decode()[-300:]})
+        trig = {}
+        for l in lines:
+            k = l.split()[1].split(":")[0]
+            trig[k] = trig.get(k, 0) + 1
+        res.evaluations += len(lines)
+        res.distinct_nontrivial += sum(1 for l in lines if l.split()[1] != "never")
+        res.distribution["cancelphase_histories"] = len(lines)
+        res.distribution["cancelphase_by_phase"] = trig
+        res.distribution["cancelphase_children"] = sum(len(c[1]) for c in cases)
+        res.distribution["cancelphase_destroy_immediately_after_cancel"] = sum(1 for l in lines if l.split()[3] in ("0", "r0") and l.split()[1] != "never")
+        res.distribution["cancelphase_stats"] = stats
+        res.distribution["cancelphase_model_schedules_compared"] = len(esc_lines)
+        res.distribution["cancelphase_destroy_race_F53"] = race
+        res.distribution["cancelphase_completion_after_destructor_F54"] = {"children": stats["completed_after_destructor"], "required_absent": strict_life}
+        res.samples.append({"cancelphase": lines[0], "impl": outs[0][:400]})
+
+    # ------------------------------------------------------------------------------------------
     def correspond(self, ctx, res):
         self.run_mixes(ctx, res)
         self.run_order(ctx, res)
         self.run_serial(ctx, res)
         self.run_procs(ctx, res)
         self.run_cancel(ctx, res)
+        self.run_phases(ctx, res)
         res.rule = ("lane queue: seeded job mixes (1-24 jobs, durations 0-5 ms, priorities, jobs adding jobs before/after their work, 1-8 lanes, cancellation from "
                     "a job or from outside) through the real queue vs the model under a seeded random interleaving, comparing schedule-independent projections; "
                     "one-lane gated runs compare the exact pop order; serial queue likewise; processes: every exit code 0..255, every fatal signal by self-kill, "
                     "output volumes up to beyond the pipe buffer compared by md5 in order, early descriptor close, lane release, spawn errors, environment "
-                    "assembly, cancellation racing spawn, SIGKILL escalation, injected poll() failure. Non-trivial = mixes with >= 2 jobs, orders with >= 3 jobs, every process launch.")
+                    "assembly, cancellation racing spawn, SIGKILL escalation, injected poll() failure; cancelphase: histories of 1-4 children on 1-3 lanes "
+                    "(canSafelyInterrupt true/false, SIGINT/SIGTERM ignored, lane released over the control channel at once / later / with a wrong id / wrong protocol, "
+                    "control channel disabled, life time short or beyond the escalation deadline, output 0-70000 bytes) with cancelAllJobs() from a foreign thread at a chosen "
+                    "phase of a chosen child (before any job, after the last addJob, child running, lane released, child exited but not reaped, launch completed) or never, and the "
+                    "queue destroyed 0-300 ms later, checked against the property per child (once, status = real fate, running children signalled / SIGKILLed / reaped before the "
+                    "destructor returns, nothing spawned after the cancellation) and against the Esc model's kill set. Non-trivial = mixes with >= 2 jobs, orders with >= 3 jobs, every process launch.")
         res.exhaustive = False
 
     def search(self, ctx, res, why):
